@@ -81,7 +81,9 @@ var (
 type c17Report struct {
 	line    int
 	excerpt string
-	caret   int // display column of the caret relative to the excerpt
+	caret   int    // display column of the caret relative to the excerpt
+	pad     string // the white space between the line prefix and the caret (tabs are expanded by the terminal)
+	lead    int    // width of the line prefix ("    12 | ")
 	ok      bool
 	why     string
 }
@@ -123,13 +125,27 @@ func c17ParseReport(stderr string) (r c17Report) {
 		r.excerpt = pm[1]
 	}
 	ci := strings.IndexByte(lines[1], '^')
-	if ci < 0 || strings.Trim(lines[1][:ci], " ") != "" {
+	if ci < prefixLen || strings.Trim(lines[1][:ci], " \t") != "" || strings.Trim(lines[1][:prefixLen], " ") != "" {
 		r.why = "no caret line: " + lines[1]
 		return
 	}
-	r.caret = ci - prefixLen
+	r.pad, r.lead = lines[1][prefixLen:ci], prefixLen
+	r.caret = c17TermCol(prefixLen, r.pad) - prefixLen
 	r.ok = true
 	return
+}
+
+// c17TermCol is the terminal column reached after printing s from column start (tab stops every 8 columns).
+func c17TermCol(start int, s string) int {
+	col := start
+	for _, seg := range strings.SplitAfter(s, "\t") {
+		tab := strings.HasSuffix(seg, "\t")
+		col += runewidth.StringWidth(strings.TrimSuffix(seg, "\t"))
+		if tab {
+			col = (col/8 + 1) * 8
+		}
+	}
+	return col
 }
 
 // c17CheckReport compares a report with the truth for offending byte p of text.
@@ -172,7 +188,8 @@ func c17CheckReportAt(text string, p int, rep c17Report) string {
 		// or an invalid UTF-8 byte (which cannot be quoted)
 		// (a pipe can only quote what has been read so far, so the excerpt may stop right before it)
 		if s <= col && col <= s+len(rep.excerpt) {
-			if want := runewidth.StringWidth(lineStr[s:col]); want == rep.caret {
+			// terminal columns: a tab moves to the next multiple of 8, in the quoted line and in the caret line alike
+			if want := runewidth.StringWidth(lineStr[s:col]); c17TermCol(rep.lead, lineStr[s:col]) == c17TermCol(rep.lead, rep.pad) {
 				if c17Ctx != nil {
 					lb := "1"
 					if line > 1 {
@@ -209,6 +226,12 @@ func c17Doc(kind string, size int, nl string) string {
 			fmt.Fprintf(&sb, `  "k%d": {"é": "日本語 %d", "w": [%d, null, true]},%s`, i, i, i, nl)
 		}
 		sb.WriteString(`  "end": null` + nl + "}")
+	case "tabs": // indented with tabs, and tabs between the members
+		sb.WriteString("{" + nl)
+		for i := 0; sb.Len() < size-60; i++ {
+			fmt.Fprintf(&sb, "\t\"k%d\": {%s\t\t\"é\":\t\"日本 %d\",\t\"w\": [%d,\tnull]%s\t},%s", i, nl, i, i, nl, nl)
+		}
+		sb.WriteString("\t\"end\": null" + nl + "}")
 	case "longlines": // lines longer than the 64-byte excerpt window
 		sb.WriteString("[" + nl)
 		for i := 0; sb.Len() < size-130; i++ {
@@ -283,7 +306,7 @@ func c17Run(c *engine.Ctx) {
 	}
 	c.Sub("json")
 	idx := 0
-	for _, kind := range []string{"numbers", "objects", "longlines"} {
+	for _, kind := range []string{"numbers", "objects", "longlines", "tabs"} {
 		for _, nl := range []string{"\n", "\r\n", "\r"} {
 			for _, size := range sizes {
 				for _, pre := range []int{0, 1, 2, 3} {
@@ -394,10 +417,13 @@ func c17Run(c *engine.Ctx) {
 					inStr = !inStr
 				}
 				if !inStr && strings.IndexByte(",:[{", ch) >= 0 {
-					if style == 1 {
+					switch style {
+					case 1:
 						sb.WriteByte(' ')
-					} else {
+					case 2:
 						sb.WriteString("\n  ")
+					default:
+						sb.WriteString("\n\t")
 					}
 				}
 			}
@@ -405,7 +431,7 @@ func c17Run(c *engine.Ctx) {
 		}
 		si := 0
 		for _, d := range docs {
-			for style := 0; style < 3; style++ {
+			for style := 0; style < 4; style++ {
 				si++
 				if !c.MineIdx(si) || c.Expired() {
 					continue
@@ -659,6 +685,7 @@ func c17Queries(c *engine.Ctx) {
 	prefixes := []string{"1 ", ".a ", "[1, 2] | .[0] ", "def f: .;\n. as $x |\n  $x ", "1 as $x | # comment\n\t$x ", "\"é日本\" ", "\"" + strings.Repeat("日", 30) + "\" | .a ",
 		strings.Repeat("1 + ", 30) + "2 ", "{a: 1}\r\n| .a ", ".\r.a ", "\"a\\(1)b\" ", ".[\"k\"] ", "(1, 2) ", "{\"é\": [1]} | .[\"é\"] ", "  \t .a ", "\n\n# leading blank lines\n.a ", "\r\n\r\n.a ", "\n.a\n| .b ", "\n\n\n1 ",
 		// characters made of several code points (their width is not the sum of the widths of the code points)
+		"\t.a ", ".a\t|\t.b ", "def f: .;\n\t\t. as $x |\n\t$x ", "\"é\"\t|\t\t.a ",
 		"\"\u1100\u1161\u11a8\" ", "\"\U0001F44D\U0001F3FD\" ", "\"\U0001F468\u200d\U0001F469\u200d\U0001F467\" ", "\"1\ufe0f\u20e3\" ", "\"\U0001F1EF\U0001F1F5\" ", "\"e\u0301\u0323\" | .a "}
 	suffixes := []string{"", " | .", "\n| . + 1", " 日本"}
 	idx := 0
